@@ -15,6 +15,21 @@
      E keyid ...             -> the LRU dropped these entries;                                   "ok"
    `pattern_rel` (the uncached per-chunk result) is the table the L lines carry: the implementation's own
    observations; `tok_hash` maps a relative token sequence to the identity of its hasher input (thid). *)
+(* ---- the entry points (Model/C05Entry.v): harper_wasm::Linter (w) / harper-ls DocumentState (s) ----
+     X|cfg                     -> the curated configuration (cfg: "key bytes=1|0|-" entries separated by ';');          "ok"
+     K cfgid hashid|cfg        -> names an EFFECTIVE configuration the real fill_with_curated produced;               "ok"
+     P w|s pid vid             -> what the integration sees of the lint payload pid (wasm: kind, suggestions, message;
+                                  harper-ls: message);                                                                 "ok"
+     EN w dictid               -> Linter::new: stored configuration = curated cleared;           prints the MODEL's stored cfg
+     EN s dictid|cfg           -> DocumentState with LintGroup::new_curated(..).with_lint_config(cfg);     "      "
+     EC|cfg                    -> set_lint_config_from_json: clear + merge_from;                           "      "
+     ED dictid                 -> synchronize_lint_dict: empty caches, old configuration merged onto the cleared curated one
+     ER dictid|cfg             -> harper-ls rebuild: empty caches, with_lint_config(cfg);                  "      "
+     EI hid / EK               -> ignore_lint (context hash hid) / clear_ignored_lints;                              "ok"
+     EL w|s|src|pre|words|post|chunks|ctxs  -> Linter::lint / generate_diagnostics.  As L, but: SpellCheck's enabled-ness
+                                  and the configuration are the MODEL's (fill_with_curated of its stored configuration);
+                                  words: "s e pid"; ctxs: "s e pid hid" = context hash of each lint LintGroup::lint can return;
+                                  prints "s e vid ..." (wasm)  or  "s e vid ...|HM..|hm.." (harper-ls) *)
 let table : (string, clint list) Hashtbl.t = Hashtbl.create 4096       (* chars|rel toks|cfg -> uncached result *)
 let thash : (string, int) Hashtbl.t = Hashtbl.create 4096              (* rel toks -> thid *)
 let hash_of_cfg : (int, int) Hashtbl.t = Hashtbl.create 64
@@ -49,10 +64,166 @@ let show_lints ls =
   String.concat " " (List.map (fun l -> Printf.sprintf "%d %d %d" (int_of_nat l.cl_span.sstart) (int_of_nat l.cl_span.send) (int_of_n l.cl_body)) ls)
 let st_code = ref (fresh (n_of_int 0))
 let keep_code ev k = not (List.exists (fun id -> match Hashtbl.find_opt keys id with Some key -> code_key_eqb k key | None -> false) ev)
+(* ---- SpellCheck over the concrete LRU (Model/C05Lru.v) ---- *)
+let lru_cap = ref 10000
+let lru_st : (n list * n list list) list ref = ref []
+let lru_spell : (string, int) Hashtbl.t = Hashtbl.create 4096
+(* ---- entry points ---- *)
+let curated : lgconfig ref = ref []
+let est : drv_estate ref = ref (drv_new (n_of_int 0) [])
+let cfg_reg : (string, int * int) Hashtbl.t = Hashtbl.create 64          (* rendered effective cfg -> (cfgid, hashid) *)
+let vis_tbl : (string, int) Hashtbl.t = Hashtbl.create 4096              (* "w|s pid" -> vid *)
+let espell : (string, int) Hashtbl.t = Hashtbl.create 1024               (* "dict|word" -> payload *)
+let ectx : (string, int) Hashtbl.t = Hashtbl.create 256                  (* "s e pid" -> context hash id (per lint step) *)
+exception Unknown_cfg of string
+let parse_cfg (s : string) : lgconfig =
+  List.filter_map (fun e ->
+      let e = String.trim e in
+      if e = "" then None else
+      match String.index_opt e '=' with
+      | None -> None
+      | Some i ->
+          let k = text_of_line (String.sub e 0 i) in
+          let v = match String.trim (String.sub e (i + 1) (String.length e - i - 1)) with "1" -> Some true | "0" -> Some false | _ -> None in
+          Some (k, v)) (String.split_on_char ';' s)
+let render_cfg (c : lgconfig) : string =
+  String.concat ";" (List.map (fun (k, v) -> line_of_text k ^ "=" ^ (match v with Some true -> "1" | Some false -> "0" | None -> "-")) c)
+let reg_of (c : lgconfig) = let r = render_cfg c in match Hashtbl.find_opt cfg_reg r with Some x -> x | None -> raise (Unknown_cfg r)
+let after_bar l = match String.index_opt l '|' with Some i -> String.sub l (i + 1) (String.length l - i - 1) | None -> ""
+let before_bar l = match String.index_opt l '|' with Some i -> String.sub l 0 i | None -> l
+let entry_line (l : string) : unit =
+  let tag = String.sub l 0 2 in
+  let rest = String.sub l 2 (String.length l - 2) in
+  match tag with
+  | "EN" ->
+      (match String.split_on_char ' ' (String.trim (before_bar rest)) with
+       | ["w"; d] -> est := drv_new (n_of_int (int_of_string d)) (List.map (fun (k, _) -> (k, None)) !curated)
+       | ["s"; d] -> est := drv_new (n_of_int (int_of_string d)) (parse_cfg (after_bar rest))
+       | _ -> ());
+      print_endline (render_cfg (drv_stored !est))
+  | "EC" -> est := drv_wasm_set_cfg !est (parse_cfg (after_bar rest)); print_endline (render_cfg (drv_stored !est))
+  | "ED" -> est := drv_wasm_sync !curated !est (n_of_int (int_of_string (String.trim rest))); print_endline (render_cfg (drv_stored !est))
+  | "ER" -> est := drv_ls_rebuild !est (n_of_int (int_of_string (String.trim (before_bar rest)))) (parse_cfg (after_bar rest));
+            print_endline (render_cfg (drv_stored !est))
+  | "EI" -> est := drv_ignore !est (n_of_int (int_of_string (String.trim rest))); print_endline "ok"
+  | "EK" -> est := drv_clear_ignored !est; print_endline "ok"
+  | "EL" ->
+      (match String.split_on_char '|' l with
+       | [hd; src; pre; words; post; chunks; ctxs] ->
+           let e = String.trim (String.sub hd 2 (String.length hd - 2)) in
+           let ent = if e = "w" then Wasm else Ls in
+           let src = text_of_line src in
+           let dict = int_of_n (!est).e_dict in
+           let slice a b = List.filteri (fun i _ -> i >= a && i < b) src in
+           (try
+             let eff = drv_effective !curated !est in
+             let (cfgid, hashid) = reg_of eff in
+             let miss = List.filter_map (fun wd ->
+                 match String.split_on_char ' ' (String.trim wd) with
+                 | [a; b; p] ->
+                     let a = int_of_string a and b = int_of_string b in
+                     let chars = slice a b in
+                     Hashtbl.replace espell (string_of_int dict ^ "|" ^ str_text chars) (int_of_string p);
+                     Some ({ sstart = nat_of_int a; send = nat_of_int b }, chars)
+                 | _ -> None) (String.split_on_char ';' words) in
+             Hashtbl.reset ectx;
+             List.iter (fun c -> match ints_of_line c with
+                 | [a; b; p; h] -> Hashtbl.replace ectx (Printf.sprintf "%d %d %d" a b p) h
+                 | _ -> ()) (String.split_on_char ';' ctxs);
+             let parsed = List.filter_map (fun c ->
+                 let c = String.trim c in
+                 if c = "" then None else if c = "-" then Some ([], 0, 0, "?", []) else
+                 match String.split_on_char ':' c with
+                 | [hd; known; ev; toks] ->
+                     (match ints_of_line hd with
+                      | [kid; thid] -> Some (tokens (ints_of_line toks), kid, thid, String.trim known, ints_of_line ev)
+                      | _ -> failwith "bad chunk head")
+                 | _ -> failwith "bad chunk") (String.split_on_char ';' chunks) in
+             let ekey chars rt c = e ^ string_of_int dict ^ "|" ^ triple_key chars rt c in
+             match drv_doc_of src (List.map (fun (ts, _, _, _, _) -> ts) parsed) miss with
+             | Panic _ -> print_endline "P"
+             | Ok d ->
+                 let evs = List.map2 (fun oc (_, kid, thid, known, ev) ->
+                     (match oc with
+                      | None -> ()
+                      | Some ch ->
+                          (match rel_toks ch.c_start ch.c_toks with
+                           | Ok rt ->
+                               Hashtbl.replace thash (str_toks rt) thid;
+                               Hashtbl.replace keys kid ((ch.c_chars, n_of_int hashid), n_of_int thid);
+                               if known <> "?" then Hashtbl.replace table (ekey ch.c_chars rt cfgid) (triples (ints_of_line known))
+                           | Panic _ -> ()));
+                     keep_code ev) d.d_chunks parsed in
+                 let e_cfg_hash c = n_of_int (snd (reg_of c)) in
+                 let e_pattern_rel dc chars t c =
+                   match Hashtbl.find_opt table (e ^ string_of_int (int_of_n dc) ^ "|" ^ triple_key chars t (fst (reg_of c))) with
+                   | Some v -> v
+                   | None -> raise Unknown_triple in
+                 let e_suggest dc w =
+                   match Hashtbl.find_opt espell (string_of_int (int_of_n dc) ^ "|" ^ str_text w) with
+                   | Some p -> [[n_of_int p]]
+                   | None -> raise Unknown_triple in
+                 let e_ctx l =
+                   match Hashtbl.find_opt ectx (Printf.sprintf "%d %d %d" (int_of_nat l.cl_span.sstart) (int_of_nat l.cl_span.send) (int_of_n l.cl_body)) with
+                   | Some h -> n_of_int h
+                   | None -> raise Unknown_triple in
+                 (match drv_entry_lint ent !curated e_cfg_hash tok_hash e_pattern_rel (triples (ints_of_line pre)) (triples (ints_of_line post))
+                          e_suggest e_ctx !est d evs [] with
+                  | Ok ((st, out), (hits, whits)) ->
+                      est := st;
+                      let show l =
+                        let pid = int_of_n l.cl_body in
+                        let v = match Hashtbl.find_opt vis_tbl (e ^ " " ^ string_of_int pid) with Some v -> string_of_int v | None -> "?" ^ string_of_int pid in
+                        Printf.sprintf "%d %d %s" (int_of_nat l.cl_span.sstart) (int_of_nat l.cl_span.send) v in
+                      let lints = String.concat " " (List.map show out) in
+                      if ent = Wasm then print_endline lints
+                      else print_endline (String.trim (lints ^ "|" ^ String.concat "" (List.map (fun b -> if b then "H" else "M") hits)
+                                          ^ "|" ^ String.concat "" (List.map (fun b -> if b then "h" else "m") whits)))
+                  | Panic _ -> print_endline "P")
+           with Unknown_triple -> print_endline "UNKNOWN (the model needs an uncached result, a suggestion or a context hash the shadow linter never produced)"
+              | Unknown_cfg r -> print_endline ("UNKNOWN-CFG the model's effective configuration was never produced by the real fill_with_curated: " ^ r)
+              | Failure m -> print_endline m
+              | Invalid_argument m -> print_endline m)
+       | _ -> print_endline "?")
+  | _ -> print_endline "?"
 let () =
   iter_lines (fun l ->
     if String.length l = 0 then print_newline () else
+    if String.length l >= 2 && l.[0] = 'E' && l.[1] <> ' ' then entry_line l else
     match l.[0] with
+    | 'S' when String.length l >= 2 && l.[1] = 'N' ->
+        (* SN cap -> a new SpellCheck: empty word cache of capacity cap (read from spell_check.rs) *)
+        lru_cap := (match ints_of_line (String.sub l 2 (String.length l - 2)) with [c] -> c | _ -> 10000);
+        lru_st := []; Hashtbl.reset lru_spell; print_endline "ok"
+    | 'S' ->
+        (* SL|src|words ("s e pid": a rejected word and the identity of the lint an uncached SpellCheck builds for it)
+           -> SpellCheck::lint on the long-lived instance over the concrete LRU; prints "s e pid ...|hm.." *)
+        (match String.split_on_char '|' l with
+         | [_; src; words] ->
+             let src = text_of_line src in
+             let slice a b = List.filteri (fun i _ -> i >= a && i < b) src in
+             let miss = List.filter_map (fun wd ->
+                 match String.split_on_char ' ' (String.trim wd) with
+                 | [a; b; p] ->
+                     let a = int_of_string a and b = int_of_string b in
+                     let chars = slice a b in
+                     Hashtbl.replace lru_spell (str_text chars) (int_of_string p);
+                     Some ({ sstart = nat_of_int a; send = nat_of_int b }, chars)
+                 | _ -> None) (String.split_on_char ';' words) in
+             let sug w = match Hashtbl.find_opt lru_spell (str_text w) with Some p -> [[n_of_int p]] | None -> [[n_of_int 0]] in
+             let ((sm, out), hits) = drv_lru_words (nat_of_int !lru_cap) sug miss !lru_st in
+             lru_st := sm;
+             print_endline (show_lints out ^ "|" ^ String.concat "" (List.map (fun b -> if b then "h" else "m") hits))
+         | _ -> print_endline "?")
+    | 'X' -> curated := parse_cfg (after_bar l); print_endline "ok"
+    | 'K' ->
+        (match ints_of_line (String.sub (before_bar l) 1 (String.length (before_bar l) - 1)) with
+         | [c; h] -> Hashtbl.replace cfg_reg (render_cfg (parse_cfg (after_bar l))) (c, h); print_endline "ok"
+         | _ -> print_endline "?")
+    | 'P' ->
+        (match String.split_on_char ' ' (String.trim l) with
+         | [_; e; pid; vid] -> Hashtbl.replace vis_tbl (e ^ " " ^ pid) (int_of_string vid); print_endline "ok"
+         | _ -> print_endline "?")
     | 'N' -> st_code := fresh (n_of_int 0); Hashtbl.reset spell_tbl; print_endline "ok"
     | 'C' ->
         (match ints_of_line (String.sub l 1 (String.length l - 1)) with
